@@ -7,7 +7,7 @@ wt=/tmp/mutrun/$id; vc=/tmp/vrun/$id
 git -C /repo worktree remove --force $wt >/dev/null 2>&1; rm -rf $wt $vc; mkdir -p /tmp/mutrun /tmp/vrun
 git -C /repo worktree add -q --detach $wt ${BASE:-HEAD} || exit 2
 ( cd $wt && { git apply /verif/seeded/$id/patch.diff || git apply --3way /verif/seeded/$id/patch.diff; } ) || { echo "patch does not apply"; git -C /repo worktree remove --force $wt; exit 2; }
-rsync -a --exclude bin --exclude .git --exclude seeded /verif/ $vc/
+if [ -n "$ISO_HEAD" ]; then mkdir -p $vc && git -C /verif archive HEAD -- . ":(exclude)seeded" ":(exclude)replays" | tar -x -C $vc && mkdir -p $vc/replays; else rsync -a --exclude bin --exclude .git --exclude seeded /verif/ $vc/; fi
 ( cd $vc && DC4BC_REPO=$wt VERIF_BUDGET_S=$b ./check $prop quick ); rc=$?
 git -C /repo worktree remove --force $wt; rm -rf $wt $vc
 echo "try_mutant $id $prop -> exit $rc"
